@@ -10,6 +10,7 @@ import (
 	"flag"
 	"fmt"
 	"os"
+	"runtime/pprof"
 	"sort"
 	"strings"
 	"time"
@@ -68,6 +69,7 @@ type Ctx struct {
 	NShards  int
 	Deadline time.Time
 	Res      *Result
+	Filter   string // debugging: explore only scenarios whose name contains this string
 	Only     string // replay: run only the scenario with this name
 	Replay   []int  // replay: choice list
 	scIndex  int64
@@ -159,7 +161,11 @@ func (c *Ctx) Explore(sc *vrt.Scenario) {
 		}
 		return
 	}
-	if !c.Mine(i) {
+	if c.Filter != "" {
+		if !strings.Contains(sc.Name, c.Filter) {
+			return
+		}
+	} else if !c.Mine(i) {
 		return
 	}
 	if c.Expired() {
@@ -171,6 +177,9 @@ func (c *Ctx) Explore(sc *vrt.Scenario) {
 	ex := &vrt.Explorer{Sc: sc, Deadline: c.Deadline}
 	ex.Run()
 	st := &ex.Stats
+	if c.Filter != "" {
+		fmt.Fprintf(os.Stderr, "%s: execs=%d states=%d transitions=%d pruned=%d maxpoints=%d maxdepth=%d complete=%v level=%d distinct=%d viol=%d\n", sc.Name, st.Execs, st.States, st.Transitions, st.Pruned, st.MaxPoints, st.MaxDepth, st.Complete, st.LevelDone, len(st.Distinct), len(ex.Violations))
+	}
 	c.Res.Scenarios++
 	c.Res.Execs += st.Execs
 	c.Res.States += st.States
@@ -211,7 +220,14 @@ func main() {
 	budget := flag.Float64("budget", 0, "wall-clock budget in seconds (0 = none)")
 	replay := flag.String("replay", "", "replay file")
 	list := flag.Bool("list", false, "list checks")
+	filter := flag.String("filter", "", "explore only scenarios whose name contains this")
+	cpuprof := flag.String("cpuprofile", "", "write cpu profile")
 	flag.Parse()
+	if *cpuprof != "" {
+		f, _ := os.Create(*cpuprof)
+		pprof.StartCPUProfile(f)
+		defer pprof.StopCPUProfile()
+	}
 	if *list {
 		var ids []string
 		for id := range registry {
@@ -229,6 +245,7 @@ func main() {
 	t0 := time.Now()
 	res := &Result{Check: *check, Shard: *shard}
 	ctx := &Ctx{Tier: *tier, Shard: *shard, NShards: *nshards, Res: res}
+	ctx.Filter = *filter
 	if *budget > 0 {
 		ctx.Deadline = t0.Add(time.Duration(*budget * float64(time.Second)))
 	}
